@@ -11,7 +11,7 @@ import tempfile
 VERIF = os.path.dirname(os.path.dirname(os.path.abspath(__file__)))
 REPO = os.environ.get("VERIF_REPO", "/repo")
 BUILD = os.path.join(VERIF, ".build")
-EVIDENCE = os.path.join(VERIF, "evidence")
+EVIDENCE = os.environ.get("VF_EVIDENCE_DIR") or os.path.join(VERIF, "evidence")   # (redirected when a scratch tree is evaluated)
 REPLAYS = os.path.join(VERIF, "replays")
 
 # sha256 of the generated C sources of the pinned tree, for which the .so files
